@@ -530,38 +530,47 @@ package protocol
 //@   modifies h._all, membut(parseArr)
 //@   allocates
 //@   ensures h.disableNormalizing == old(h.disableNormalizing)
+//@   ensures h.contentLength == old(h.contentLength)
 //@ func ResponseHeader.SetServerBytes(h, server)
 //@   modifies h._all, membut(parseArr)
 //@   allocates
 //@   ensures h.disableNormalizing == old(h.disableNormalizing)
+//@   ensures h.contentLength == old(h.contentLength)
 //@ func ResponseHeader.SetContentLengthBytes(h, contentLength)
 //@   modifies h._all, membut(parseArr)
 //@   allocates
 //@   ensures h.disableNormalizing == old(h.disableNormalizing)
+//@   ensures h.contentLength == old(h.contentLength)
 //@ func ResponseHeader.SetContentEncodingBytes(h, contentEncoding)
 //@   modifies h._all, membut(parseArr)
 //@   allocates
 //@   ensures h.disableNormalizing == old(h.disableNormalizing)
+//@   ensures h.contentLength == old(h.contentLength)
 //@ func ResponseHeader.AddArgBytes(h, key, value, noValue)
 //@   modifies h._all, alltype(protocol.argsKV), membut(parseArr)
 //@   allocates
 //@   ensures h.disableNormalizing == old(h.disableNormalizing)
+//@   ensures h.contentLength == old(h.contentLength)
 //@ func ResponseHeader.SetArgBytes(h, key, value, noValue)
 //@   modifies h._all, alltype(protocol.argsKV), membut(parseArr)
 //@   allocates
 //@   ensures h.disableNormalizing == old(h.disableNormalizing)
+//@   ensures h.contentLength == old(h.contentLength)
 //@ func ResponseHeader.PeekArgBytes(h, key) r
 //@ func ResponseHeader.Peek(h, key) r
 //@   modifies h._all, membut(parseArr)
 //@   allocates
 //@   ensures h.disableNormalizing == old(h.disableNormalizing)
+//@   ensures h.contentLength == old(h.contentLength)
 //@ func ResponseHeader.ParseSetCookie(h, value)
 //@   modifies h._all, alltype(protocol.argsKV), membut(parseArr)
 //@   allocates
 //@   ensures h.disableNormalizing == old(h.disableNormalizing)
+//@   ensures h.contentLength == old(h.contentLength)
 //@ func ResponseHeader.SetProtocol(h, p)
 //@   modifies h._all
 //@   ensures h.disableNormalizing == old(h.disableNormalizing)
+//@   ensures h.contentLength == old(h.contentLength)
 
 // URI.parse: panic-free for every host/uri; the path buffer and the original-path buffer stay separate arrays
 // (normalizePath's precondition), which parse itself preserves.
